@@ -9,15 +9,30 @@ import (
 	"golang.org/x/tools/go/ssa"
 )
 
-const kBucketNext = "(*pogreb.bucketIterator).next"
+// isChainNext: the chain-iteration step, identified by its shape rather than its name: a method of package pogreb with
+// no parameters and results (bucketHandle, error).
+func isChainNextFn(f *ssa.Function) bool {
+	if f == nil || f.Pkg == nil || f.Pkg.Pkg.Path() != modPath || f.Signature.Recv() == nil {
+		return false
+	}
+	sig := f.Signature
+	if sig.Params().Len() != 0 || sig.Results().Len() != 2 {
+		return false
+	}
+	return typeName(sig.Results().At(0).Type()) == "pogreb.bucketHandle" && isErrorType(sig.Results().At(1).Type())
+}
 
-// chainWalkers returns the module functions that call (*bucketIterator).next inside a loop, with the calls.
+func isChainNextCall(c *ssa.CallCommon) bool {
+	return c != nil && isChainNextFn(c.StaticCallee())
+}
+
+// chainWalkers returns the module functions that call the chain-iteration step inside a loop, with the calls.
 func chainWalkers(p *Program) map[*ssa.Function][]*ssa.Call {
 	out := map[*ssa.Function][]*ssa.Call{}
 	for _, f := range p.ModuleFuncs("") {
 		instrsOf(f, func(in ssa.Instruction) {
 			c, ok := in.(*ssa.Call)
-			if !ok || calleeKey(&c.Call) != kBucketNext {
+			if !ok || !isChainNextCall(&c.Call) {
 				return
 			}
 			if inCycle(c.Block()) {
@@ -78,7 +93,7 @@ func chainEdgeClass(c *Cond) string {
 		// chain end: err == ErrIterationDone with err the error result of bucketIterator.next
 		for _, pr := range [][2]ssa.Value{{c.X, c.Y}, {c.Y, c.X}} {
 			if globalLoad(pr[1]) == "pogreb.ErrIterationDone" {
-				if call, idx := callResult(pr[0]); call != nil && idx == 1 && calleeKey(&call.Call) == kBucketNext {
+				if call, idx := callResult(pr[0]); call != nil && idx == 1 && isChainNextCall(&call.Call) {
 					return "chain-end"
 				}
 			}
@@ -399,7 +414,7 @@ func ruleC01Count(r *Run, p *Program, rule string) {
 			w.From(delCalls...)
 			okAll := true
 			for _, ret := range returnsOf(f) {
-				if w.Visited[ret] && !isFailureReturn(f, ret) {
+				if w.succ(f, ret) {
 					okAll = false
 					r.bad(rule, funcKey(f)+":removal-counted", p.Pos(instrPos(ret)), "a slot removal can return success without decrementing numKeys", w.PathTo(p, ret)...)
 				}
@@ -438,7 +453,7 @@ func ruleC01Count(r *Run, p *Program, rule string) {
 		w.From()
 		okAll := true
 		for _, ret := range returnsOf(f) {
-			if w.Visited[ret] && !isFailureReturn(f, ret) {
+			if w.succ(f, ret) {
 				okAll = false
 				r.bad(rule, funcKey(f)+":insertion-counted", p.Pos(instrPos(ret)), "inserting a new key can return success without incrementing numKeys", w.PathTo(p, ret)...)
 			}
@@ -636,13 +651,20 @@ func ruleC01Addressing(r *Run, p *Program, rule string) {
 	for _, f := range p.ModuleFuncs("") {
 		instrsOf(f, func(in ssa.Instruction) {
 			c, ok := in.(*ssa.Call)
-			if !ok || calleeKey(&c.Call) != "(*pogreb.index).newBucketIterator" || len(c.Call.Args) != 2 {
+			if !ok || !isNewChainIterCall(&c.Call) || len(c.Call.Args) != 2 {
 				return
 			}
 			n++
 			r.fn(funcKey(f))
 			arg := c.Call.Args[1]
-			construct := funcKey(f) + "->newBucketIterator"
+			// a walk extracted into a helper gets its start bucket as a parameter: judge what the callers pass
+			if pa, ok := strip(arg).(*ssa.Parameter); ok && funcKey(f) != "(*pogreb.ItemIterator).fetchItems" {
+				if args := callSiteArgs(p, f, paramIndex(pa)); len(args) == 1 {
+					arg = args[0]
+					f = args[0].(interface{ Parent() *ssa.Function }).Parent()
+				}
+			}
+			construct := funcKey(c.Parent()) + "->newBucketIterator"
 			pos := p.Pos(c.Pos())
 			var viaBucketIndex *ssa.Call
 			for _, s := range sources(arg) {
@@ -739,4 +761,39 @@ func checkSlotLiteral(r *Run, p *Program, rule string, f *ssa.Function, appendKe
 		r.check(got[fld] == want[fld], rule, funcKey(f)+":slot."+fld, p.Pos(f.Pos()),
 			"slot."+fld+" = "+want[fld], "the index slot written by Put has "+fld+" = "+got[fld]+", want "+want[fld]+": the slot would not be found again / would point at the wrong record")
 	}
+}
+
+// isNewChainIterCall: constructor of the chain iterator: a method of index taking a bucket number and returning a pointer to
+// the type whose method is the chain-iteration step.
+func isNewChainIterCall(c *ssa.CallCommon) bool {
+	f := c.StaticCallee()
+	if f == nil || f.Pkg == nil || f.Pkg.Pkg.Path() != modPath || f.Signature.Recv() == nil {
+		return false
+	}
+	if f.Signature.Results().Len() != 1 || f.Signature.Params().Len() != 1 {
+		return false
+	}
+	rt := f.Signature.Results().At(0).Type()
+	ms := f.Prog.MethodSets.MethodSet(rt)
+	for i := 0; i < ms.Len(); i++ {
+		if isChainNextFn(f.Prog.MethodValue(ms.At(i))) {
+			return typeName(f.Signature.Recv().Type()) == "*pogreb.index"
+		}
+	}
+	return false
+}
+
+// callSiteArgs returns the values passed for parameter idx of f at its static call sites in the module.
+func callSiteArgs(p *Program, f *ssa.Function, idx int) []ssa.Value {
+	var out []ssa.Value
+	for _, g := range p.ModuleFuncs("") {
+		instrsOf(g, func(in ssa.Instruction) {
+			if c, ok := in.(*ssa.Call); ok && c.Call.StaticCallee() == f && idx < len(c.Call.Args) {
+				if v, ok := c.Call.Args[idx].(interface{ Parent() *ssa.Function }); ok && v != nil {
+					out = append(out, c.Call.Args[idx])
+				}
+			}
+		})
+	}
+	return out
 }
